@@ -133,6 +133,7 @@ def run(ctx):
     edge_enumeration(ctx)
     segments_grid(ctx)
     neighbour_tables(ctx)
+    griddata_fields(ctx)
 
 
 def _single(lst, what):
@@ -590,3 +591,40 @@ def neighbour_tables(ctx):
             ok5 = full and okc and oka and okp
             why5 = "all (element, local edge): %s; element appended to the list of its edge: %s; one empty list per edge: %s; published as tuples: %s" % (full, okc, oka, okp)
     r.check(ok5, "edge neighbours", GRID, f5.name, f5.lineno, "edge neighbours", why5)
+
+
+# GridData field <- Grid attribute it mirrors (the Numba kernels read the fields, the Python layer the attributes)
+GRIDDATA_FIELDS = {
+    "vertices": "self._vertices", "elements": "self._elements", "edges": "self._edges", "element_edges": "self._element_edges", "volumes": "self._volumes",
+    "normals": "self._normals", "jacobians": "self._jacobians", "jac_inv_trans": "self._jacobian_inverse_transposed", "diameters": "self._diameters",
+    "integration_elements": "self._integration_elements", "centroids": "self._centroids", "domain_indices": "self._domain_indices", "vertex_on_boundary": "self._vertex_on_boundary",
+    "element_neighbor_indices": "self._element_neighbors.indices", "element_neighbor_indexptr": "self._element_neighbors.indexptr",
+}
+
+
+def griddata_fields(ctx):
+    """The compiled containers handed to every Numba kernel carry, field by field, the table of the same name."""
+    m = ctx.repo.mod(GRID)
+    r = ctx.rule("GRIDDATA-FIELDS", "GridDataDouble / GridDataFloat: every constructor argument is the Grid table its parameter names (dtype conversions aside) and is stored in the field of that name", 4)
+    init = m.fn("Grid.__init__")
+    defs = roles.Defs(init)
+    for cls in ("GridDataDouble", "GridDataFloat"):
+        ci = m.fn(cls + ".__init__")
+        params = arg_names(ci)[1:]
+        if set(params) != set(GRIDDATA_FIELDS):
+            raise AnalysisError("%s.__init__ parameters changed: %s" % (cls, sorted(set(params) ^ set(GRIDDATA_FIELDS))))
+        Si = {s.target: s.value for s in roles.stores(ci.body, roles.Defs(ci), lv=False) if s.op == "=" and not s.guards and not s.loops}
+        bad = [p for p in params if Si.get("self." + p) != p]
+        r.check(not bad, "%s.__init__ stores each parameter in its field" % cls, GRID, cls + ".__init__", ci.lineno, "%s field stores %s" % (cls, bad), "parameters not stored in the field of the same name: %s" % bad)
+        calls = [c for c in ast.walk(init) if isinstance(c, ast.Call) and unparse(c.func) == cls]
+        if len(calls) != 1:
+            raise AnalysisError("Grid.__init__: construction of %s not found" % cls)
+        c = calls[0]
+        got = dict(zip(params, c.args))
+        got.update({k.arg: k.value for k in c.keywords})
+        wrong = []
+        for p in params:
+            g = roles.canon(got[p], defs).replace(" ", "") if p in got else None
+            if g != GRIDDATA_FIELDS[p]:
+                wrong.append("%s <- %s (expected %s)" % (p, g, GRIDDATA_FIELDS[p]))
+        r.check(not wrong, "Grid.__init__ -> %s" % cls, GRID, "Grid.__init__", c.lineno, "%s arguments %s" % (cls, wrong[:3]), "; ".join(wrong))
